@@ -80,6 +80,17 @@ def remote_probe(ctx, rep, mine, deployments=DEPLOYMENTS):
                 n2 = len(uploads)
                 s3 = await (await user(key2, b'pw2') if encrypted else await user(None, None)).snapshot(paths=[wd / 'a' / 'f', wd / 'a' / 'g'])
                 out['again_shared_user'] = (len(uploads) - n2, data_objects() - before)
+                # a client whose credentials may write but not look (existence checks answered 403 for good): it is either refused or,
+                # if it carries on, it must not store what is stored already
+                n3 = len(uploads)
+                denied = {'on': True}
+                out['_denied'] = denied
+                try:
+                    await (await user(init.key, pw)).snapshot(paths=[wd / 'a'])
+                    out['look_denied'] = ('completed', len(uploads) - n3)
+                except Exception as e:
+                    out['look_denied'] = (f'refused ({type(e).__name__})', len(uploads) - n3)
+                denied['on'] = False
                 sb = await (await user(init.key, pw)).snapshot(paths=[wd / 'b'])
                 ru = await user(init.key, pw)
                 loc = ru._chunk_digest_to_location
@@ -110,8 +121,14 @@ def remote_probe(ctx, rep, mine, deployments=DEPLOYMENTS):
             finally:
                 type(be).upload_stream = orig_stream
 
+        async def handler(request):
+            d = out.get('_denied')
+            if d and d['on'] and request.method == 'HEAD':
+                return svc._fault_response('403')
+            return await svc.handler(request)
+
         err = None
-        with fk.patched_async_client(svc.handler), fk.VirtualSleep(), contextlib.redirect_stdout(io.StringIO()), contextlib.redirect_stderr(io.StringIO()):
+        with fk.patched_async_client(handler), fk.VirtualSleep(), contextlib.redirect_stdout(io.StringIO()), contextlib.redirect_stderr(io.StringIO()):
             try:
                 asyncio.run(asyncio.wait_for(go(), 120))
             except Exception as e:
@@ -129,6 +146,10 @@ def remote_probe(ctx, rep, mine, deployments=DEPLOYMENTS):
         n, new = out['again_shared_user']
         if (n or new) and 'repeat_uploaded_payload' in mine:
             _viol(rep, 'repeat_uploaded_payload', f'snapshot of data already uploaded by a shared-key user transferred {n} chunk payload(s)', dep)
+        how, n = out.get('look_denied', ('', 0))
+        if how == 'completed' and n and 'repeat_uploaded_payload' in mine:
+            _viol(rep, 'repeat_uploaded_payload', f'with existence checks answered 403 (credentials that may write but not look) a snapshot of unchanged data completed and '
+                                                  f'transferred {n} chunk payload(s) again', dep)
         if out['exact_after_snapshots'] != out['ref_all'] and 'not_exact' in mine:
             _viol(rep, 'not_exact', f'chunk objects differ from the chunks referenced: {len(out["exact_after_snapshots"] - out["ref_all"])} unreferenced, '
                                     f'{len(out["ref_all"] - out["exact_after_snapshots"])} missing', dep)
@@ -147,7 +168,7 @@ def remote_probe(ctx, rep, mine, deployments=DEPLOYMENTS):
             _viol(rep, 'restore_mismatch', f'the remaining snapshot does not restore: {out["restored"]}', dep)
 
 
-def remote_fault_probe(ctx, rep, mine, n=6):
+def remote_fault_probe(ctx, rep, mine, n=6, focus=None):
     """C03 over the remote adapters: from some request on, one kind of request (uploads / deletions / existence checks) is answered
     with an error for good (401, 403, 500, 503) while a snapshot or a delete runs.  Whatever the command reports, once the service
     is healthy again every snapshot that is visible must have all its chunks and restore, and a new snapshot + clean must work."""
@@ -156,7 +177,7 @@ def remote_fault_probe(ctx, rep, mine, n=6):
     for trial in range(n):
         rng = ctx.rng
         dep = rng.choice(['b2-by-name', 'b2-by-id', 's3c'])
-        victim = rng.choice(['snapshot', 'snapshot', 'delete'])
+        victim = rng.choice(['snapshot', 'snapshot', 'delete']) if focus is None else (focus if rng.random() < 0.8 else rng.choice(['snapshot', 'delete']))
         if dep.startswith('b2'):
             op = rng.choice(['upload', 'upload', 'get_upload_url', 'head']) if victim == 'snapshot' else rng.choice(['hide_file', 'list_file_names'])
             kinds = ['401', '401', '500', '503', '403']
